@@ -14,19 +14,20 @@ W = 64
 SLOW_LOG = True
 
 
-class PathAbort(BaseException):
-    """Path cut: infeasible assumption or deliberate bound."""
+class PathAbort(KeyboardInterrupt):
+    """Path cut: infeasible assumption or deliberate bound. (KeyboardInterrupt subclass: asyncio's Task.__step and
+    construct's `except Exception` let it through.)"""
 
 
 class CutPath(KeyboardInterrupt):
     """Cut raised inside coroutines (asyncio re-raises KeyboardInterrupt out of Task.__step)."""
 
 
-class EngineLimit(BaseException):
+class EngineLimit(KeyboardInterrupt):
     """Something the engine cannot encode: the run is inconclusive (exit 2)."""
 
 
-class EngineFault(BaseException):
+class EngineFault(KeyboardInterrupt):
     """Internal inconsistency (exit 3)."""
 
 
